@@ -25,7 +25,9 @@ def main() -> int:
         sys.path.insert(0, src)
         os.environ["PYTHONPATH"] = src + os.pathsep + os.environ.get("PYTHONPATH", "")
         # runs against a scratch copy (self-tests, seeded changes) must not overwrite the evidence of the real tree
-        os.environ["VERIF_EVIDENCE_DIR"] = os.path.join(HERE, ".scratch", "evidence-other-repo")
+        # (nor leave replay files among those of the real tree); a caller running several at once names its own directory
+        os.environ.setdefault("VERIF_EVIDENCE_DIR", os.path.join(HERE, ".scratch", "evidence-other-repo"))
+        os.makedirs(os.environ["VERIF_EVIDENCE_DIR"], exist_ok=True)
     import physt  # noqa
     if not os.path.abspath(physt.__file__).startswith(os.path.abspath(src)):
         print(f"machinery error: physt imported from {physt.__file__}, expected under {src}", file=sys.stderr)
